@@ -51,7 +51,9 @@ CHECKS = {
              "every ID in range. A second search drives a real ProxiedCircuit (send / drop_message / take + re-inject, first sight flagged RESENT) to depth 6 "
              "(quick) / 7 and evaluates the same laws on the packet ids of the captured datagrams; in every state of that search every ordered list of up to 3 "
              "of the newest 3 (thorough 4) wire ids is acknowledged by an inbound packet (appended acks, PacketAck body, acks on a dropped packet) and the "
-             "acks reaching the viewer must be the original ids of the non-injected ones. Bounded exhaustive: the right level for a small state "
+             "acks reaching the viewer must be the original ids of the non-injected ones; a forwarded StartPingCheck must carry, for every in-scope id sent so far, "
+             "the wire id that packet went out as (or the proxy's own older unacked id, as documented); the circuit search runs with tracker window 2 and 10000 "
+             "for an endpoint numbering from 1 and with window 2 for one numbering from 0. Bounded exhaustive: the right level for a small state "
              "machine whose bugs are 2-4 events deep.",
         note="IDs older than an injection that aged out of the window are out of scope (bounded memory); packet-ID wrap-around excluded; "
              "production window is 10000, harness uses 1..3 to reach eviction."),
